@@ -80,6 +80,10 @@ func runC05(c *Ctx) *Replay {
 		x.Reader = readerKinds[(i+c.R.Intn(len(readerKinds)))%len(readerKinds)]
 		x.Writer = writerKinds[c.R.Intn(len(writerKinds))]
 		x.Again = c.R.Chance(1, 3)
+		x.Reuse = c.R.Chance(1, 3)
+		if x.Reuse {
+			c.Count("reused_receivers", 1)
+		}
 		if !x.Again && c.R.Chance(1, 3) {
 			x.Overlap = c.R.Range(1, 12)
 		}
@@ -212,6 +216,7 @@ func execHistory(n *Node, sc *Scenario) *Violation {
 		}
 		defer func() { overlapViol = nil }()
 	}
+	reused := map[string]reg.Record{}
 	for i := range bounds {
 		if overlapViol != nil {
 			return overlapViol
@@ -223,6 +228,17 @@ func execHistory(n *Node, sc *Scenario) *Violation {
 			return nil
 		}
 		rec := t.New()
+		stale := false
+		if sc.Reuse && !(sc.Decoder == "make" && t.Make != nil) {
+			// the caller's read loop decodes every record of a type into the SAME variable
+			if prev := reused[typ]; prev != nil {
+				rec = prev
+				// messages and unions keep what the wire does not mention (section 13): after a
+				// first use only records made of structs all the way down are compared by value
+				stale = holdsMessageOrUnion(rb.Schema, typ, map[string]bool{})
+			}
+			reused[typ] = rec
+		}
 		var derr error
 		var cr callResult
 		if sc.Decoder == "make" && t.Make != nil {
@@ -247,6 +263,9 @@ func execHistory(n *Node, sc *Scenario) *Violation {
 			return &Violation{Class: class, Signature: class + "|decode|" + kind,
 				Detail: fmt.Sprintf("record %d of %d (%s): decoder consumed %d bytes, %s than the record's end at %d (reader kind %s, schedule %s)", i, len(bounds), typ, consumed, dir, bounds[i], sc.Reader, s.Name),
 				Facts:  map[string]string{"record_kind": kind, "reader": sc.Reader, "old_reader": fmt.Sprint(sc.OldPeer)}}
+		}
+		if stale {
+			continue
 		}
 		got, _, err := n.readBack(rb, typ, rec)
 		if err != nil {
@@ -274,6 +293,37 @@ func execHistory(n *Node, sc *Scenario) *Violation {
 		}
 	}
 	return nil
+}
+
+// holdsMessageOrUnion reports whether a record of the type is, or holds at any depth, a
+// message or a union.
+func holdsMessageOrUnion(s *schema.Schema, typ string, seen map[string]bool) bool {
+	d := s.Lookup(typ)
+	if d == nil || seen[typ] {
+		return false
+	}
+	if d.Kind == schema.KMessage || d.Kind == schema.KUnion {
+		return true
+	}
+	seen[typ] = true
+	var walk func(t schema.Type) bool
+	walk = func(t schema.Type) bool {
+		switch {
+		case t.Array != nil:
+			return walk(*t.Array)
+		case t.MapV != nil:
+			return walk(*t.MapV)
+		case t.Named != "":
+			return holdsMessageOrUnion(s, t.Named, seen)
+		}
+		return false
+	}
+	for _, f := range d.Fields {
+		if walk(f.Type) {
+			return true
+		}
+	}
+	return false
 }
 
 func hasDeprecated(s *schema.Schema, typ string, seen map[string]bool) bool {
